@@ -73,8 +73,12 @@ type HostConf struct {
 	// the application had set Cmd.Stdin before handing the command to go-plugin: "idle-pipe" = the read end of an
 	// io.Pipe that stays open and silent (os/exec copies such a reader through a goroutine that cmd.Wait waits for)
 	PresetStdin  string `json:"preset_stdin,omitempty"`
-	SharedConfig bool   `json:"shared_config,omitempty"`  // every client of the cell is built from the same *ClientConfig (only Cmd swapped)
-	CookieValue  string `json:"cookie_value,omitempty"`   // HandshakeConfig.MagicCookieValue of the host (default: the usual one)
+	SharedConfig bool   `json:"shared_config,omitempty"` // every client of the cell is built from the same *ClientConfig (only Cmd swapped)
+	CookieValue  string `json:"cookie_value,omitempty"`  // HandshakeConfig.MagicCookieValue of the host (default: the usual one)
+	// the application built the command with exec.CommandContext and set its documented Cancel hook to a polite signal
+	// ("sigterm"): that hook is the application's way of stopping the command when ITS context ends, nothing else
+	CmdCancel    string `json:"cmd_cancel,omitempty"`
+	SlowStderrUs int    `json:"slow_stderr_us,omitempty"` // ClientConfig.Stderr is a writer that takes this long per Write
 	ScriptLine   string `json:"script_line,omitempty"`    // plugin is a shell script printing this line instead of vplugin
 	Group        string `json:"group,omitempty"`          // UnixSocketConfig.Group
 	Managed      bool   `json:"managed,omitempty"`        // ClientConfig.Managed (for CleanupClients)
@@ -129,7 +133,8 @@ type Result struct {
 	Env          []string   `json:"env,omitempty"`
 	HelperErr    string     `json:"helper_err,omitempty"`
 	StdinIsHost  bool       `json:"stdin_is_host"`
-	StdinSeen    string     `json:"stdin_seen,omitempty"` // what a real child read from its stdin (env:cmdstdin)
+	StdinSeen    string     `json:"stdin_seen,omitempty"`   // what a real child read from its stdin (env:cmdstdin)
+	StderrLines  int        `json:"stderr_lines,omitempty"` // complete lines that reached ClientConfig.Stderr
 	SocketDir    string     `json:"socket_dir,omitempty"`
 }
 
@@ -318,6 +323,12 @@ func RunCell(c *Cell) (res *Result) {
 				}
 			}
 		}
+		if c.Host.CmdCancel == "sigterm" {
+			c2 := exec.CommandContext(context.Background(), cmd.Path, cmd.Args[1:]...)
+			c2.Env, c2.Dir = cmd.Env, cmd.Dir
+			c2.Cancel = func() error { return c2.Process.Signal(syscall.SIGTERM) }
+			cmd = c2
+		}
 		if c.Host.PresetStdin == "idle-pipe" {
 			pr, pw := io.Pipe()
 			idlePipes = append(idlePipes, pw) // kept open, never written to
@@ -336,7 +347,7 @@ func RunCell(c *Cell) (res *Result) {
 			Logger:              hclog.NewNullLogger(),
 			SyncStdout:          so,
 			SyncStderr:          se,
-			Stderr:              plog,
+			Stderr:              stderrWriter(plog, c.Host.SlowStderrUs),
 			SkipHostEnv:         c.Host.SkipHostEnv,
 			GRPCBrokerMultiplex: c.Host.Mux,
 			Managed:             c.Host.Managed,
@@ -999,6 +1010,7 @@ func RunCell(c *Cell) (res *Result) {
 	}
 	res.XlateRefused = xlateRefused.Load()
 	res.SyncOut, res.SyncErr = so.String(), se.String()
+	res.StderrLines = strings.Count(plog.String(), "\n")
 	if pl := plog.String(); len(pl) > 3000 {
 		res.PluginLog = pl[len(pl)-3000:]
 	} else {
@@ -1094,3 +1106,19 @@ func PrintPattern(stream byte, seq, n int) string {
 	}
 	return string(b)
 }
+
+// stderrWriter returns w, or a writer in front of it that takes us microseconds per Write (a slow sink: a terminal, a
+// network log shipper).
+func stderrWriter(w io.Writer, us int) io.Writer {
+	if us <= 0 {
+		return w
+	}
+	return slowWriter{w: w, d: time.Duration(us) * time.Microsecond}
+}
+
+type slowWriter struct {
+	w io.Writer
+	d time.Duration
+}
+
+func (s slowWriter) Write(p []byte) (int, error) { time.Sleep(s.d); return s.w.Write(p) }
